@@ -38,6 +38,9 @@ class Ring:
             self.ok = L.boolean(cr, self.r, pb, st)
             self.exp_n = (m + W - 1) // W; self.exp_no = (m + 7) // 8
             self.order = 1 << m
+            self.tsh = sorted(set(e for e in p[1:] if e)) + [0]
+            for t in (AC.fint('sm0', 2 * m), (1 << (2 * m - 1)) - 1, self.mod, self.mod << (m - 1)):
+                assert self.sparse_mod(t) == P.mod(t, self.mod)
         else:
             self.mod = mod = int(case['mod'], 16); no = case['no']
             self.order = mod
@@ -63,7 +66,7 @@ class Ring:
             self.problems.append(('keep', 'r->hdr.keep = %d exceeds %s_keep = %d' % (self.keep, cr, keep)))
         nb = self.n * self.wb
         self.nb = nb
-        self.ea, self.eb, self.ec = A.buf(nb), A.buf(nb), A.buf(nb)
+        self.ea, self.eb, self.ec = A.buf(nb + 64, 0xA5), A.buf(nb + 64, 0xA5), A.buf(nb + 64, 0xA5)   # 64 guard octets each
         self.oa = A.buf(self.no); self.ob = A.buf(self.no)
         self.st = A.buf(self.deep + GUARD, 0xA5)
         self.guard = b'\xA5' * GUARD
@@ -83,7 +86,15 @@ class Ring:
     def m_add(self, x, y): return x ^ y if self.gf2 else (x + y) % self.mod
     def m_sub(self, x, y): return x ^ y if self.gf2 else (x - y) % self.mod
     def m_neg(self, x): return x if self.gf2 else -x % self.mod
-    def m_mul(self, x, y): return P.mulmod(x, y, self.mod) if self.gf2 else x * y % self.mod
+    def m_mul(self, x, y): return self.sparse_mod(P.mul(x, y)) if self.gf2 else x * y % self.mod
+    def sparse_mod(self, a):
+        """a mod p for p = x^m + t(x) (t = the lower terms): x^m = t, folded until deg a < m"""
+        m = self.m; mask = (1 << m) - 1; sh = self.tsh
+        while a >> m:
+            hi = a >> m; a &= mask
+            for k in sh:
+                a ^= hi << k
+        return a
     def m_inv(self, x):
         k = ('inv', x)
         if k not in self.cache:
@@ -122,7 +133,7 @@ class Ring:
         if k not in self.cache:
             self.oa.set(x.to_bytes(self.no, 'little'))
             self.call('frm', self.ec, self.oa, self.r, self.st)
-            self.cache[k] = self.ec.get()
+            self.cache[k] = self.ec.get(self.nb)
         return self.cache[k]
     def value(self, ebytes):
         """residue of an element through r->to"""
@@ -167,7 +178,7 @@ class Ring:
                 return 'return', 'from(%x) returned %s, the encoding is %s' % (x, ret, 'valid' if valid else 'invalid (>= modulus)')
             if not valid:
                 return None
-            return self.judge('from', self.ec.get(), x, None)
+            return self.judge('from', self.ec.get(self.nb), x, None)
         if op == 'to':
             el = self.elem(x)
             if alias:
@@ -189,7 +200,7 @@ class Ring:
                 L.call('qrPower', c, a, eb, m, self.r, st)
                 if st.get(GUARD, deep) != self.guard:
                     return 'stack-overrun', 'qrPower wrote beyond qrPower_deep(n, m, r->deep) = %d' % deep
-                return self.judge('power', c.get(), self.m_pow(x, e), None)
+                return self.judge('power', c.get(self.nb), self.m_pow(x, e), None)
         ex = self.elem(x); ey = self.elem(y)
         ea, eb, ec = self.ea, self.eb, self.ec
         binary = op in ('add', 'sub', 'mul', 'div')
@@ -225,7 +236,11 @@ class Ring:
         elif op == 'div':
             r, ov = self.call(op, bufs['b'], bufs['d'], bufs['a'], self.r, self.st)
             i = self.m_inv(y); want = None if i is None else self.m_mul(x, i)
-        out = bufs[res_name].get()
+        out = bufs[res_name].get(self.nb)
+        for bb in (ea, eb, ec):
+            if bb.get(64, self.nb) != b'\xA5' * 64:
+                bb.set(b'\xA5' * 64, self.nb)
+                return 'buffer-overrun', '%s wrote beyond the r->n words of an element buffer' % op
         return self.judge(op, out, want, ov)
 
 def elements(R, tier):
@@ -297,9 +312,9 @@ def run_ring(case):
         if R.n <= 6:
             exps.append((5, AC.fint('pe5', 5 * R.W) | 1 << (5 * R.W - 1)))
         for a in ALIAS['power']:
-            for x in E[:6]:
+            for xi, x in enumerate(E[:6]):
                 for m, e in exps:
-                    if e >> (m * R.W):
+                    if e >> (m * R.W) or (R.gf2 and m > 2 and xi not in (1, 4)):
                         continue
                     note('power', a, x, 0, R.do_op('power', a, x, 0, e, m), e, m); n += 1
     finally:
